@@ -16,5 +16,5 @@ if [[ "${SKIP_SUITE:-0}" != 1 ]]; then
   (cd "$WT" && /venv/bin/python -W ignore -m pytest -q -p no:cacheprovider -x 2>&1 | tail -1)
 fi
 for C in "$@"; do
-  (cd /verif && VERIF_REPO="$WT" VERIF_OUT=/tmp/drill-out ./check "$C" --no-audit 2>&1 | grep -E "VIOLATION|KNOWN|quick seed" | head -3)
+  (cd "${VERIF_HOME:-/verif}" && VERIF_REPO="$WT" VERIF_OUT=/tmp/drill-out ./check "$C" --no-audit 2>&1 | grep -E "VIOLATION|KNOWN|quick seed" | head -3)
 done
